@@ -99,5 +99,7 @@ META = {
         "(a) length functions: for every n and first byte, either -1 or n = fixed(first byte) + l*slot;  (b) unmarshal on a buffer of exactly that n and a slot array of exactly l entries: every access in bounds;  (a)+(b) compose to 'any buffer of any length >= 1'",
         "C++-only UB classes (strict aliasing, union active member, object lifetime) are not modelled; assembly routines are outside this check",
         "lang/go/*/marshal.go is not covered"]),
-    "C16": dict(level="proof", assumptions=GROUP_ASSUME + ["Encoding::encode and Fq12::write_big_endian are injective byte encodings of the group element (C09, C04)"]),
+    "C16": dict(level="proof", assumptions=GROUP_ASSUME + ["Encoding::encode and Fq12::write_big_endian are injective byte encodings of the group element (C09, C04)",
+        "the binding clauses are proved for an identity point != O; that compute_id_from_hash returns the point only after testing the cofactor-cleared point non-zero is an explicit obligation (defect D11: before the repair the identity hash 00..00 gave the point at infinity)",
+        "hash points are formal curve points of unknown order; try_and_increment's next candidate is another such point (C10)"]),
 }
